@@ -393,6 +393,19 @@ func TestLargeCapacity(t *testing.T) {
 		}
 		t0 := hx.Epoch + uint64(rapid.IntRange(0, 999).Draw(t, "t0"))
 		hx.Reset(t0)
+		if capacity > def && rapid.Bool().Draw(t, "replacesARuleWithASmallerCapacity") {
+			// the rule arrives as a modification of a rule that differs in its capacity only (the default one, or 20000 entries):
+			// the tables in force afterwards have the configured capacity
+			p := cloneRule(r)
+			p.ParamsMaxCapacity = 0
+			if capacity > 20000 {
+				p.ParamsMaxCapacity = 20000
+			}
+			if _, err := hotspot.LoadRules([]*hotspot.Rule{p}); err != nil {
+				t.Fatalf("LoadRules (predecessor): %v", err)
+			}
+			c.Class("capacity-raised-by-a-reload")
+		}
 		if _, err := hotspot.LoadRules([]*hotspot.Rule{r}); err != nil || len(hotspot.GetRulesOfResource("h")) != 1 {
 			t.Fatalf("LoadRules: %v", err)
 		}
